@@ -51,3 +51,11 @@ Theorem C11_repeat_is_n_copies : forall n g t,
     t_retval t = VA (map t_retval us) /\ t_score t = zsum (map t_score us).
 Proof. exact repeat_is_n_copies. Qed.
 Print Assumptions C11_repeat_is_n_copies.
+
+(* ---- non-vacuity: concrete non-trivial programs and traces meeting the hypotheses above (proofs/GFIWitness.v) ---- *)
+From Proofs Require Import GFIWitness.
+Example C11_hypotheses_met :
+  (wft ex_vmap (tr_of ex_vmap ex_vmap_a) /\ length (t_choices (tr_of ex_vmap ex_vmap_a)) = 3%nat) /\
+  (let t := tr_of (g_repeat 3 ex_step 1) [VZ 2] in wft (g_repeat 3 ex_step (length (t_args t))) t /\ length (t_choices t) = 3%nat).
+Proof. exact (conj ex_vmap_wft ex_repeat_wft). Qed.
+Print Assumptions C11_hypotheses_met.
